@@ -420,6 +420,7 @@ def jweFmt (w : World) (argv : List String) : Res :=
         | some (.arr [_]) => true
         | some _ => false
       if compact && !countOk then fail else
+      if compact && (inp.obj.get? "aad").isSome then fail else     -- the compact form cannot carry aad (fix F36)
       let head : Option (List String) :=
         if compact then
           match compactFieldOf inp.obj "protected" none, compactFieldOf inp.obj "encrypted_key" (some "recipients"),
@@ -467,6 +468,7 @@ def jweEnc (P : Prims) (w : World) (argv : List String) (rnd : Bs) : Res :=
       let compact := hasFlag os 'c'
       if keys.isEmpty then fail else
       if keys.length > 1 && compact then fail else
+      if compact && (inp.obj.get? "aad").isSome then fail else     -- the compact form cannot carry aad (fix F36)
       match lastOpt os 'I' with
       | none => fail                                  -- "Must specify detached input!"
       | some dfile =>
